@@ -103,3 +103,51 @@ def jobs(tier):
                         must_have=['postcondition', 'loop_invariant_step', 'loop_decreases', 'precondition'],
                         clause='{var:} escaping is the exact HTML-safe transduction of its input, for strings of every length'))
     return out
+
+
+# ---- routing of {var:} output through the escaper (TemplateCore::renderVariable, real template text, value/stream cut) -------------
+import lib_expr as LE
+
+RV = LE.TC + '_renderVariable'
+GETV = LE.TC + '_getValue'
+WRITE = 'QV_GStream__char_Write'
+ESC = 'StringUtils_EscapeHTMLSpecialChars__QV_GStream__char_char'
+COPYV = 'QV_GValue_CopyValueTo__QV_GStream__char_void__QV_GStream__char_r_const_char_p_unsigned_int_'
+ITEMS = 'Array__TemplateCore__char_QV_GValue_QV_GStream__char_LoopItem'
+
+
+def routing_job():
+    T_OFF = '(tag->Offset - 5u)'          # VariablePrefixLength = 5 ("{var:")
+    LEN = '((unsigned int)tag->Length + 6u)'  # VariableFullLength = 6 ("{var:" + "}")
+    main = dict(
+        requires=['__CPROVER_is_fresh(self, sizeof(*self))', '__CPROVER_is_fresh(self->stream_, sizeof(*self->stream_))',
+                  '__CPROVER_is_fresh(self->content_, self->length_)', '__CPROVER_is_fresh(tag, sizeof(*tag))', '__CPROVER_is_fresh(offset, sizeof(*offset))',
+                  '__CPROVER_is_fresh(self->loops_items_, sizeof(*self->loops_items_))',
+                  '__CPROVER_is_fresh(self->loops_items_->storage_, 256 * sizeof(*self->loops_items_->storage_))',
+                  '__CPROVER_is_fresh(self->loops_items_->storage_[tag->Level].Key.storage_, self->loops_items_->storage_[tag->Level].Key.length_)',
+                  # what the tag parser establishes: the tag lies inside the template and after the cursor
+                  'tag->Offset >= 5u && *offset <= %s && (unsigned long long)%s + %s <= self->length_' % (T_OFF, T_OFF, LEN),
+                  'g_raw == 0 && g_esc == 0'],
+        ensures=['g_raw == 1', '*offset == %s + %s' % ('(__CPROVER_old(tag->Offset) - 5u)', '((unsigned int)__CPROVER_old(tag->Length) + 6u)')],
+        assigns=['*offset', 'g_raw', 'g_esc'])
+    write = dict(requires=['g_raw == 0 && g_esc == 0', 'length == 0 || __CPROVER_r_ok(str, length)'], assigns=['g_raw'], ensures=['g_raw == 1'],
+                 stub_body='  __CPROVER_assert(g_raw == 0 && g_esc == 0, "raw Write after the literal text: {var:} output bypasses the escaper"); g_raw = g_raw + 1;')
+    esc = dict(requires=['length == 0 || __CPROVER_r_ok(str, length)'], assigns=['g_esc'], ensures=['g_esc == __CPROVER_old(g_esc) + 1'],
+               stub_body='  g_esc = g_esc + 1;')
+    copyv = dict(requires=['string_function == (void *)&%s' % ESC], assigns=['g_esc'],
+                 ensures=['__CPROVER_return_value == 0 || __CPROVER_return_value == 1', 'g_esc >= __CPROVER_old(g_esc)'],
+                 stub_body='  __CPROVER_assert(string_function == (void *)&%s, "value printed without the HTML escaper"); _Bool b; return b;' % ESC)
+    getv = dict(assigns=[], ensures=['__CPROVER_return_value == 0 || __CPROVER_is_fresh(__CPROVER_return_value, sizeof(*__CPROVER_return_value))'],
+                stub_body='  return 0;')
+    return dict(name='renderVariable<char>.routing', unit=LE.UNIT, fn=RV, roots=[LE.QTC + '::renderVariable'], cuts=[GETV, ESC],
+                specs={RV: main, WRITE: write, ESC: esc, COPYV: copyv, GETV: getv}, replace=[WRITE, ESC, COPYV, GETV],
+                ghosts=[('unsigned int', 'g_raw'), ('unsigned int', 'g_esc')], solver='cadical', timeout=600, objbits=10,
+                must_have=['postcondition', 'precondition'],
+                clause='every printing path of {var:} (value, loop key, fallback echo) goes through the HTML escaper; only the literal text before the tag is written raw')
+
+
+_jobs_c03 = jobs
+
+
+def jobs(tier):
+    return _jobs_c03(tier) + [routing_job()]
